@@ -619,7 +619,8 @@ Qed.
 (* flushing a leaf moves its pending amount to its child: the total is unchanged *)
 Lemma phi_flush_leaf c all st l : NoDup (map fst all) -> In l all -> phi c all (flush_leaf st l) = phi c all st.
 Proof.
-  intros N H. unfold phi, flush_leaf. cbn [rt_store rt_bufs].
+  intros N H. unfold flush_leaf. destruct (kv_get (fst l) (rt_bufs st) =? 0); [reflexivity|].
+  unfold phi. cbn [rt_store rt_bufs].
   pose proof (pending_change c all (rt_bufs st) (kv_set (fst l) 0 (rt_bufs st)) l N H) as P.
   rewrite kv_get_set, key_eqb_refl in P.
   assert (A : forall q, q <> fst l -> kv_get q (kv_set (fst l) 0 (rt_bufs st)) = kv_get q (rt_bufs st)).
@@ -634,8 +635,10 @@ Proof.
 Qed.
 Lemma flush_leaf_zero st l q : kv_get q (rt_bufs st) = 0 \/ q = fst l -> kv_get q (rt_bufs (flush_leaf st l)) = 0.
 Proof.
-  intros H. unfold flush_leaf. cbn [rt_bufs]. rewrite kv_get_set. destruct (key_eqb q (fst l)) eqn:E; auto.
-  destruct H as [H|H]; auto. subst. rewrite key_eqb_refl in E. discriminate.
+  intros H. unfold flush_leaf. destruct (kv_get (fst l) (rt_bufs st) =? 0) eqn:Z.
+  - destruct H as [H|H]; auto. subst. apply N.eqb_eq. exact Z.
+  - cbn [rt_bufs]. rewrite kv_get_set. destruct (key_eqb q (fst l)) eqn:E; auto.
+    destruct H as [H|H]; auto. subst. rewrite key_eqb_refl in E. discriminate.
 Qed.
 Lemma flush_leaves_zero lv : forall st q, kv_get q (rt_bufs st) = 0 \/ In q (map fst lv) ->
   kv_get q (rt_bufs (flush_leaves st lv)) = 0.
@@ -995,4 +998,24 @@ Proof.
   - intros s -> H. apply try_get_declared_first; auto.
   - intros v Hp H. apply get_enum; auto.
   - intros x [H|H]; [apply get_inline; auto|apply get_unknown_variant; auto].
+Qed.
+
+(* ================= K. the function that is executed against the compiled batches ================= *)
+Theorem model_c19_delivers c ls ops children answers :
+  resolve (c_decl c) = Some ls -> Permutation (c_names c) (keys_of ls) ->
+  c_ops c = (if is_local_metric (dc_type (c_decl c)) then ops ++ [OFlush []] else ops) ->
+  model_c19 c = Some (children, answers) ->
+  exists st, children = map (fun kvp => (combine (c_names c) (fst kvp), snd kvp)) (rt_store st)
+    /\ forall ch, kv_get ch (rt_store st) = delivered (has_try (dc_form (c_decl c))) ls (c_names c) ch ops.
+Proof.
+  intros R P O. unfold model_c19. destruct (wf_declb (c_decl c)) eqn:Wb; cbn [negb]; [|discriminate].
+  destruct (wf_declb_sound _ Wb) as (ls' & W). assert (ls' = ls) by (destruct W as (R' & _); congruence). subst ls'.
+  rewrite R. rewrite mk_setup_default.
+  pose proof (default_layout_inj ls) as I.
+  rewrite (leaves_all _ _ _ (c_auto c) (default_layout ls) W P).
+  destruct (run_ops _ _ (c_ops c)) as [st|] eqn:Run; [|discriminate]. intros H. inversion H; subst. clear H.
+  exists st. split; [reflexivity|]. intros ch. rewrite O in Run.
+  destruct (is_local_metric (dc_type (c_decl c))) eqn:LO.
+  - eapply flush_delivers; eauto.
+  - eapply direct_delivers; eauto.
 Qed.
